@@ -2,8 +2,14 @@ import gfapy
 import re
 
 def unsafe_decode(string):
+  elems = string.split(",")
+  for l in elems:
+    if len(l) < 2:
+      raise gfapy.FormatError(
+        "{} is not a valid list of GFA1 oriented identifiers\n".format(repr(string))+
+        "(the element {} is not an identifier followed by + or -)".format(repr(l)))
   return [ gfapy.OrientedLine(str(l[0:-1]), str(l[-1]))
-           for l in string.split(",")]
+           for l in elems]
 
 def decode(string):
   validate_encoded(string)
